@@ -25,7 +25,7 @@ EXPLANATION = (
     "and the exact run arithmetic (library semantics)."
 )
 # obligations added during the build phase (seeding rounds, twins, mutation analysis)
-ADDED_IN_BUILD = " Also: (f) SPEC-EQ - the expressions that reach the formatters equal spec/dense.py as normalised by the same engine (X.index[M] after reset_index(drop=True) and X.columns[M] after `columns = range(...)` are read as np.flatnonzero(M)); the subset converter reports column POSITIONS (column-positions); the neighbour comparison never uses a circular shift (np.roll: no-wrap-around); DENSE-FILL is decided for three spellings (padded bounds list, two parallel lists, scatter + cumsum with an entailment test of its filter); every call of sktime's check_series passes allow_index_names=True so the index handed to sparse_to_dense keeps its names (C11.b re-run)."
+ADDED_IN_BUILD = " Also: (f) SPEC-EQ - the expressions that reach the formatters equal spec/dense.py as normalised by the same engine (X.index[M] after reset_index(drop=True) and X.columns[M] after `columns = range(...)` are read as np.flatnonzero(M)); the subset converter reports column POSITIONS (column-positions); the neighbour comparison never uses a circular shift (np.roll: no-wrap-around); DENSE-FILL is decided for three spellings (padded bounds list, two parallel lists, scatter + cumsum with an entailment test of its filter); every call of sktime's check_series passes allow_index_names=True so the index handed to sparse_to_dense keeps its names (C11.b re-run). DENSE-FILL of the subset detector (C16.c): the column index is the anomaly's own icolumns entry, the dense frame is built from the label matrix by position (not from a dict keyed by column labels)."
 EXPLANATION = EXPLANATION + ADDED_IN_BUILD
 
 ASSUMPTIONS = [
@@ -81,7 +81,7 @@ def run_s2d(ctx, cls):
     def thunk(ex):
         ys = OpaqueV("y_sparse", {"kind": "frame"})
         index = Num(sym("index"), (N,), None, "index", meta={"kind": "LABEL"})
-        cols = Num(sym("columns"), (Pdim,), None, "index")
+        cols = Num(sym("columns"), (Pdim,), None, "index", meta={"kind": "LABEL"})
         ex.atom_shapes[Atom("sym", "index").key] = (N,)
         ex.atom_shapes[Atom("sym", "columns").key] = (Pdim,)
         return ex.call_function(f, [ys, index, cols], {}, None, None)
@@ -102,7 +102,7 @@ def check_s2d(ctx, cls):
             if e.kind == "label_use":
                 uses.setdefault((e.loc(), e.data["callee"]), e)
     for (l, callee), e in uses.items():
-        ctx.violation(rule, f"{cls.name}|{callee.split('.')[-1][:30]}", l, "the index LABELS of the data are looked up against a structure of integer POSITIONS: for any index other than 0..n-1 (offset range, datetime, period) the dense output is wrong", found=norm_src(e.node)[:120], expected="positions np.arange(len(index)); the index only as index= of the result")
+        ctx.violation(rule, f"{cls.name}|{callee.split('.')[-1][:30]}", l, "LABELS of the data (its index, or its column labels) are matched with integer POSITIONS: for any index other than 0..n-1 (offset range, datetime, period) / any integer column labels other than 0..p-1 the dense output is wrong", found=norm_src(e.node)[:120], expected="positions np.arange(len(index)); the index only as index= of the result")
     if not uses:
         ctx.holds(rule, f"{cls.name}.sparse_to_dense", f.loc(), f"`index` flows only into len() and index= on all {len(paths)} paths")
     # the frame is built on the index handed in
